@@ -66,6 +66,15 @@ type ModSet struct {
 	Visible    map[int][]string    // module -> names visible after all imports (model)
 	ImportMods map[string][]int    // root event "import:<k>" -> modules it names directly
 	Extra      map[string][]string // free-form notes for evidence
+	RootTail   []string            // expected last lines of stdout: the root's calls after all imports
+	Invisible  []invisibleName     // names the root must NOT be able to use (model)
+	RootImps   [][]int             // per root import: modules it names directly
+}
+
+type invisibleName struct {
+	Kind string // private-func | private-var | unlisted | not-imported
+	Use  string // a root statement using the name
+	Name string
 }
 
 const ausModule = `Die öffentliche Funktion Schreibe_Text mit dem Parameter p1 vom Typ Text, gibt nichts zurück,
@@ -186,7 +195,7 @@ func genModuleSet(r *prng.R, o genModOpts) *ModSet {
 				kinds["selective"] = true
 			}
 			m.Imports = append(m.Imports, imp)
-			if r.Chance(0.15) { // repeated import of the same module (another spelling)
+			if (o.Faulty || o.Clashes) && r.Chance(0.15) { // repeated import of the same module (another spelling): an error in DDP
 				imp2 := gmImport{Target: j, Spelling: spell(m, ms.Mods[j])}
 				m.Imports = append(m.Imports, imp2)
 				kinds["repeat"] = true
@@ -207,7 +216,19 @@ func genModuleSet(r *prng.R, o genModOpts) *ModSet {
 				}
 			}
 			if has && r.Chance(0.6) {
-				ms.Mods[0].Imports = append(ms.Mods[0].Imports, gmImport{Target: -1, Dir: d, Spelling: d, Rec: r.Bool()})
+				rec := r.Bool()
+				// a module must not be imported twice by the same importer: drop the explicit imports the directory import covers
+				if !o.Faulty && !o.Clashes {
+					var keep []gmImport
+					for _, imp := range ms.Mods[0].Imports {
+						if imp.Target > 0 && dirCovers(d, rec, ms.Mods[imp.Target].Path) {
+							continue
+						}
+						keep = append(keep, imp)
+					}
+					ms.Mods[0].Imports = keep
+				}
+				ms.Mods[0].Imports = append(ms.Mods[0].Imports, gmImport{Target: -1, Dir: d, Spelling: d, Rec: rec})
 				kinds["dir_import"] = true
 			}
 		}
@@ -304,6 +325,15 @@ func genModuleSet(r *prng.R, o genModOpts) *ModSet {
 	return ms
 }
 
+// dirCovers: does a (recursive) directory import of dir name the module at path?
+func dirCovers(dir string, rec bool, path string) bool {
+	if !strings.HasPrefix(path, dir+"/") {
+		return false
+	}
+	rest := strings.TrimPrefix(path, dir+"/")
+	return rec || !strings.Contains(rest, "/")
+}
+
 func relImport(from *gmModule, target string) string {
 	rel, _ := filepath.Rel(filepath.Dir(from.Path), target)
 	return filepath.ToSlash(rel)
@@ -363,6 +393,9 @@ func renderModule(ms *ModSet, m *gmModule, r *prng.R) string {
 		}
 		fmt.Fprintf(&b, "Und kann so benutzt werden:\n\t\"%s\"\n\n", f.Alias)
 	}
+	if m.Idx == 0 {
+		renderRootBody(ms, &b)
+	}
 	for k := 0; k < m.Top; k++ {
 		marker := fmt.Sprintf("top %s:%d", tag, k)
 		fmt.Fprintf(&b, "drucke \"%s\".\n", marker)
@@ -379,4 +412,136 @@ func joinNames(ns []string) string {
 		return ns[0] + " und " + ns[1]
 	}
 	return strings.Join(ns[:len(ns)-1], ", ") + " und " + ns[len(ns)-1]
+}
+
+// publicNamesOf lists the public variables and functions of module j.
+func publicNamesOf(m *gmModule) (vars []string, funcs []gmFunc) {
+	for _, v := range m.Vars {
+		if v.Public {
+			vars = append(vars, v.Name)
+		}
+	}
+	for _, f := range m.Funcs {
+		if f.Public {
+			funcs = append(funcs, f)
+		}
+	}
+	return
+}
+
+// renderRootBody emits the root's own same-named private helper, a use of every name the model says is
+// visible, and records what must not be visible.
+func renderRootBody(ms *ModSet, b *strings.Builder) {
+	root := ms.Mods[0]
+	visVars := map[string]bool{}
+	visFuncs := map[string]gmFunc{}
+	owner := map[string]int{}
+	direct := map[int]bool{}
+	selective := map[int]map[string]bool{}
+	for _, imp := range root.Imports {
+		var mods []int
+		switch {
+		case imp.Target > 0:
+			mods = []int{imp.Target}
+		case imp.Target == -1:
+			for _, m := range ms.Mods[1:] {
+				if dirCovers(imp.Dir, imp.Rec, m.Path) {
+					mods = append(mods, m.Idx)
+				}
+			}
+		}
+		ms.RootImps = append(ms.RootImps, mods)
+		for _, j := range mods {
+			direct[j] = true
+			vars, funcs := publicNamesOf(ms.Mods[j])
+			listed := map[string]bool{}
+			for _, n := range imp.Names {
+				listed[n] = true
+			}
+			if len(imp.Names) > 0 {
+				if selective[j] == nil {
+					selective[j] = map[string]bool{}
+				}
+			}
+			for _, v := range vars {
+				if len(imp.Names) == 0 || listed[v] {
+					visVars[v] = true
+					owner[v] = j
+				}
+			}
+			for _, f := range funcs {
+				if len(imp.Names) == 0 || listed[f.Name] {
+					visFuncs[f.Name] = f
+					owner[f.Name] = j
+				}
+			}
+		}
+	}
+	fmt.Fprintf(b, "Die Funktion hilfs gibt nichts zurück, macht:\n\tdrucke \"call m0:hilfs\".\nUnd kann so benutzt werden:\n\t\"hilfs\"\n\n")
+	b.WriteString("hilfs.\n")
+	ms.RootTail = append(ms.RootTail, "call m0:hilfs")
+	var fnames []string
+	for n := range visFuncs {
+		fnames = append(fnames, n)
+	}
+	sort.Strings(fnames)
+	for _, n := range fnames {
+		f := visFuncs[n]
+		fmt.Fprintf(b, "%s.\n", f.Alias)
+		tag := modTag(owner[n])
+		ms.RootTail = append(ms.RootTail, fmt.Sprintf("call %s:%s", tag, n), fmt.Sprintf("call %s:hilfs", tag))
+	}
+	var vnames []string
+	for n := range visVars {
+		vnames = append(vnames, n)
+	}
+	sort.Strings(vnames)
+	for i, n := range vnames {
+		fmt.Fprintf(b, "Die Zahl summe%d ist %s plus %d.\n", i, n, i)
+	}
+	ms.Visible[0] = append(append([]string{}, fnames...), vnames...)
+	// what must not be usable in the root
+	for _, m := range ms.Mods[1:] {
+		for _, f := range m.Funcs {
+			if f.Name == "hilfs" {
+				continue
+			}
+			use := f.Alias + "."
+			switch {
+			case !f.Public && direct[m.Idx]:
+				ms.Invisible = append(ms.Invisible, invisibleName{"private-func", use, f.Name})
+			case f.Public && !direct[m.Idx]:
+				ms.Invisible = append(ms.Invisible, invisibleName{"not-imported", use, f.Name})
+			case f.Public && direct[m.Idx]:
+				if _, ok := visFuncs[f.Name]; !ok {
+					ms.Invisible = append(ms.Invisible, invisibleName{"unlisted", use, f.Name})
+				}
+			}
+		}
+		for _, v := range m.Vars {
+			use := fmt.Sprintf("Die Zahl verboten ist %s plus 1.", v.Name)
+			switch {
+			case !v.Public && direct[m.Idx]:
+				ms.Invisible = append(ms.Invisible, invisibleName{"private-var", use, v.Name})
+			case v.Public && !direct[m.Idx]:
+				ms.Invisible = append(ms.Invisible, invisibleName{"not-imported", use, v.Name})
+			case v.Public && direct[m.Idx] && !visVars[v.Name]:
+				ms.Invisible = append(ms.Invisible, invisibleName{"unlisted", use, v.Name})
+			}
+		}
+	}
+	// import edges for the initialisation model
+	for _, m := range ms.Mods {
+		for _, imp := range m.Imports {
+			if imp.Target > 0 {
+				ms.Edges = append(ms.Edges, [2]int{m.Idx, imp.Target})
+			} else if imp.Target == -1 {
+				for _, x := range ms.Mods[1:] {
+					if dirCovers(imp.Dir, imp.Rec, x.Path) {
+						ms.Edges = append(ms.Edges, [2]int{m.Idx, x.Idx})
+					}
+				}
+			}
+		}
+	}
 }
